@@ -1,3 +1,266 @@
-"""placeholder"""
+"""syntree 0.14.5 model: Builder (open/close/token/checkpoint/close_at/build, shared-Rc checkpoints) transliterated from
+builder.rs, and the read API (Tree, Node, Children, SkipTokens, Span).  Differentially tested against the real crate
+(tools/fuzz_tree_model.py -> replay op `builder_ops`)."""
+import re
 from mirsym import *
 from . import model, ITER_NEXT
+from .core import some, none, ok, err, deref
+
+U32_MAX = 2 ** 32 - 1
+
+class Links:
+    __slots__ = ('data', 'start', 'end', 'parent', 'prev', 'next', 'first', 'last')
+    def __init__(self, data, start, end, parent, prev):
+        self.data = data; self.start = start; self.end = end; self.parent = parent; self.prev = prev
+        self.next = None; self.first = None; self.last = None
+
+class TreeM:
+    def __init__(self):
+        self.tree = []; self.first = None; self.last = None; self.span_end = 0
+    def get(self, i): return self.tree[i] if i is not None and 0 <= i < len(self.tree) else None
+
+class SynErr(Exception):
+    def __init__(self, kind): self.kind = kind
+
+class BuilderM:
+    def __init__(self):
+        self.t = TreeM(); self.checkpoint_ = None; self.parent = None; self.sibling = None; self.cursor = 0
+    def insert(self, data, start, end):
+        new = len(self.t.tree)
+        prev = self.sibling; self.sibling = None
+        self.t.tree.append(Links(data, start, end, self.parent, prev))
+        if self.parent is not None:
+            node = self.t.get(self.parent)
+            if node is not None:
+                if node.first is None: node.first = new
+                node.last = new
+                node.end = end
+        else:
+            if self.t.first is None: self.t.first = new
+            self.t.last = new
+        p = self.t.get(prev)
+        if p is not None: p.next = new
+        return new
+    def open(self, data):
+        i = self.insert(data, self.cursor, self.cursor); self.parent = i; return i
+    def close(self):
+        head = self.parent; self.parent = None
+        if head is None: raise SynErr('CloseError')
+        self.sibling = head
+        node = self.t.get(head)
+        if node is None: raise SynErr('MissingNode')
+        if node.parent is not None:
+            par = self.t.get(node.parent)
+            if par is None: raise SynErr('MissingNode')
+            par.end = node.end
+            self.parent = node.parent
+    def token(self, value, length):
+        start = self.cursor
+        if length != 0:
+            if self.cursor + length > U32_MAX: raise SynErr('Overflow')
+            self.cursor += length
+            self.t.span_end = self.cursor
+        i = self.insert(value, start, self.cursor)
+        self.sibling = i
+        return i
+    def checkpoint(self):
+        node = len(self.t.tree)
+        c = self.checkpoint_
+        if c is not None and c[0] == node: return c
+        c = [node, self.parent]
+        self.checkpoint_ = c
+        return c
+    def close_at(self, c, data):
+        i, parent = c
+        if parent != self.parent: raise SynErr('CloseAtError')
+        new_id = len(self.t.tree)
+        links = self.t.get(i)
+        if links is None:
+            n = self.insert(data, self.cursor, self.cursor)
+            if n != i: raise SynErr('MissingNode')
+            self.sibling = n
+            return n
+        parent = links.parent; links.parent = new_id
+        prev = links.prev; links.prev = None
+        if links.next is not None:
+            start = links.start
+            nxt = links.next
+            l = self.t.get(nxt)
+            if l is None: raise SynErr('MissingNode')
+            last = (nxt, l.end); l.parent = new_id
+            while l.next is not None:
+                nxt = l.next; l = self.t.get(nxt)
+                if l is None: raise SynErr('MissingNode')
+                last = (nxt, l.end); l.parent = new_id
+            last_id, end = last
+            span = (start, end)
+        else:
+            last_id = i; span = (links.start, links.end)
+        p = self.t.get(parent)
+        if p is not None:
+            if p.first == i: p.first = new_id
+            if p.last == i: p.last = new_id
+        pv = self.t.get(prev)
+        if pv is not None: pv.next = new_id
+        if self.t.first == i: self.t.first = new_id
+        n = Links(data, span[0], span[1], parent, prev)
+        n.first = i; n.last = last_id
+        self.t.tree.append(n)
+        self.sibling = new_id
+        c[0] = new_id; c[1] = parent
+        return new_id
+    def build(self):
+        if self.parent is not None: raise SynErr('BuildError')
+        return self.t
+
+def serr(kind): return err(VObj('syntree_error', kind=kind))
+def getb(I, v):
+    v = deref(I, v)
+    if isinstance(v, VObj) and v.kind == 'builder': return v.b
+    raise Unsupported(f'not a syntree builder: {v!r}')
+
+B = r'^(?:syntree::)?Builder::<.*>::'
+@model(B + r'(new_with|new)$|^<(?:syntree::)?Builder<.*> as Default>::default$')
+def b_new(I, m, a, dt): return VObj('builder', b=BuilderM())
+@model(B + r'open$')
+def b_open(I, m, a, dt):
+    try: return ok(VInt(getb(I, a[0]).open(a[1]), 'u32'))
+    except SynErr as e: return serr(e.kind)
+@model(B + r'close$')
+def b_close(I, m, a, dt):
+    try: getb(I, a[0]).close(); return ok(VUnit())
+    except SynErr as e: return serr(e.kind)
+@model(B + r'token$')
+def b_token(I, m, a, dt):
+    n = I.concretize(a[2].v, what='token length')
+    try: return ok(VInt(getb(I, a[0]).token(a[1], n), 'u32'))
+    except SynErr as e: return serr(e.kind)
+@model(B + r'token_empty$')
+def b_token_empty(I, m, a, dt):
+    try: return ok(VInt(getb(I, a[0]).token(a[1], 0), 'u32'))
+    except SynErr as e: return serr(e.kind)
+@model(B + r'checkpoint$')
+def b_checkpoint(I, m, a, dt):
+    return ok(VObj('checkpoint', c=getb(I, a[0]).checkpoint()))
+@model(r'^<(?:syntree::)?Checkpoint<.*> as Clone>::clone$')
+def cp_clone(I, m, a, dt):
+    c = deref(I, a[0]); return VObj('checkpoint', c=c.c)       # Rc clone: shares the cell
+@model(B + r'close_at$')
+def b_close_at(I, m, a, dt):
+    c = deref(I, a[1])
+    try: return ok(VInt(getb(I, a[0]).close_at(c.c, a[2]), 'u32'))
+    except SynErr as e: return serr(e.kind)
+@model(B + r'build$')
+def b_build(I, m, a, dt):
+    try: return ok(VObj('tree', t=getb(I, a[0]).build()))
+    except SynErr as e: return serr(e.kind)
+@model(B + r'cursor$')
+def b_cursor(I, m, a, dt): return VRef(Cell(VInt(getb(I, a[0]).cursor, 'u32')), [])
+
+# ---- read API ----
+def node(t, i): return VObj('node', t=t, id=i)
+def gett(I, v):
+    v = deref(I, v)
+    if isinstance(v, VObj) and v.kind == 'tree': return v.t
+    raise Unsupported(f'not a tree: {v!r}')
+def getn(I, v):
+    v = deref(I, v)
+    if isinstance(v, VObj) and v.kind == 'node': return v
+    raise Unsupported(f'not a node: {v!r}')
+def children(t, first, last): return VObj('children', t=t, first=first, last=last)
+def span_of(l): return VStruct('Span', [VInt(l.start, 'u32'), VInt(l.end, 'u32')])
+
+T = r'^(?:syntree::)?Tree::<.*>::'
+N = r'^(?:syntree::)?(?:node::)?Node::<.*>::'
+C = r'^(?:syntree::)?(?:node::)?Children::<.*>::'
+@model(T + r'children$')
+def t_children(I, m, a, dt):
+    t = gett(I, a[0]); return children(t, t.first, t.last)
+@model(T + r'(first|last)$')
+def t_first(I, m, a, dt):
+    t = gett(I, a[0]); i = t.first if m.group(1) == 'first' else t.last
+    return some(node(t, i)) if t.get(i) is not None else none()
+@model(T + r'(is_empty|len|capacity)$')
+def t_len(I, m, a, dt):
+    t = gett(I, a[0])
+    return VBool(len(t.tree) == 0) if m.group(1) == 'is_empty' else VInt(len(t.tree), 'usize')
+@model(N + r'value$')
+def n_value(I, m, a, dt):
+    n = getn(I, a[0]); return VRef(Cell(n.t.tree[n.id].data), [])
+@model(N + r'span$')
+def n_span(I, m, a, dt):
+    n = getn(I, a[0]); return VRef(Cell(span_of(n.t.tree[n.id])), [])
+@model(N + r'range$')
+def n_range(I, m, a, dt):
+    n = getn(I, a[0]); l = n.t.tree[n.id]
+    return VStruct('Range', [VInt(l.start, 'usize'), VInt(l.end, 'usize')])
+@model(N + r'(has_children|is_empty)$')
+def n_has_children(I, m, a, dt):
+    n = getn(I, a[0]); h = n.t.tree[n.id].first is not None
+    return VBool(h if m.group(1) == 'has_children' else not h)
+@model(N + r'children$')
+def n_children(I, m, a, dt):
+    n = getn(I, a[0]); l = n.t.tree[n.id]; return children(n.t, l.first, l.last)
+@model(N + r'(first|last|next|prev|parent)$')
+def n_nav(I, m, a, dt):
+    n = getn(I, a[0]); l = n.t.tree[n.id]; i = getattr(l, m.group(1))
+    return some(node(n.t, i)) if n.t.get(i) is not None else none()
+def children_next(I, it):
+    first = it.first; it.first = None
+    if first is None: return none()
+    l = it.t.get(first)
+    if l is None: return none()
+    if it.last is None: return none()
+    if first != it.last: it.first = l.next
+    return some(node(it.t, first))
+ITER_NEXT['children'] = children_next
+def skiptokens_next(I, it):
+    inner = deref(I, it.inner)
+    while True:
+        x = children_next(I, inner)
+        if x.variant == 'None': return x
+        n = x.items[0]
+        if n.t.tree[n.id].first is not None: return x
+ITER_NEXT['skiptokens'] = skiptokens_next
+@model(C + r'skip_tokens$')
+def c_skip_tokens(I, m, a, dt): return VObj('skiptokens', inner=a[0])
+@model(C + r'next_node$')
+def c_next_node(I, m, a, dt):
+    it = deref(I, a[0])
+    while True:
+        x = children_next(I, it)
+        if x.variant == 'None': return x
+        n = x.items[0]
+        if n.t.tree[n.id].first is not None: return x
+@model(r'^<(?:syntree::)?(?:node::)?Children<.*> as Default>::default$')
+def c_default(I, m, a, dt): return children(TreeM(), None, None)
+@model(r'^<(?:syntree::)?(?:node::)?(?:Children|SkipTokens)<.*> as Clone>::clone$')
+def c_clone(I, m, a, dt):
+    it = deref(I, a[0])
+    if it.kind == 'children': return children(it.t, it.first, it.last)
+    inner = deref(I, it.inner); return VObj('skiptokens', inner=children(inner.t, inner.first, inner.last))
+@model(r'^(?:syntree::)?Span::<.*>::new$')
+def span_new(I, m, a, dt): return VStruct('Span', [a[0], a[1]])
+@model(r'^(?:syntree::)?Span::<.*>::point$')
+def span_point(I, m, a, dt): return VStruct('Span', [a[0], a[0]])
+@model(r'^(?:syntree::)?Span::<.*>::range$')
+def span_range(I, m, a, dt):
+    s = deref(I, a[0]); return VStruct('Range', [VInt(s.items[0].v, 'usize'), VInt(s.items[1].v, 'usize')])
+@model(r'^(?:syntree::)?Span::<.*>::(len|is_empty)$')
+def span_len(I, m, a, dt):
+    s = deref(I, a[0]); d = s.items[1].v - s.items[0].v
+    return VInt(d, 'usize') if m.group(1) == 'len' else VBool(d == 0)
+@model(r'^<(?:syntree::)?Span<.*> as (?:Clone|Copy)>::clone$')
+def span_clone(I, m, a, dt): return I.copyval(deref(I, a[0]))
+
+def dump_tree(t):
+    """[(depth, kind, start, end)] in document order (for comparisons with the real crate)"""
+    out = []
+    def walk(i, depth):
+        while i is not None:
+            l = t.tree[i]
+            out.append((depth, l.data.variant if hasattr(l.data, 'variant') else l.data, l.start, l.end, l.first is None and l.start != l.end))
+            if l.first is not None: walk(l.first, depth + 1)
+            i = l.next
+    walk(t.first, 0)
+    return out
